@@ -36,6 +36,7 @@ func RunATPServer(
 type atpServerSession struct {
 	ctx            context.Context
 	wg             *sync.WaitGroup
+	workersWg      *sync.WaitGroup // The step and signal goroutines, which report on workDone.
 	stdinCloser    io.ReadCloser
 	cborStdin      *cbor.Decoder
 	cborStdout     *cbor.Encoder
@@ -78,6 +79,7 @@ func initializeATPServerSession(
 		runDoneChannel: runDoneChannel,
 		pluginSchema:   pluginSchema,
 		wg:             &sync.WaitGroup{},
+		workersWg:      &sync.WaitGroup{},
 		runningSteps:   make(map[string]string),
 	}
 }
@@ -104,49 +106,54 @@ func (s *atpServerSession) sendRuntimeMessage(msgID uint32, runID string, messag
 
 func (s *atpServerSession) handleClosure() []*ServerError {
 	// Wait for work done or context complete.
+	// The read loop, the steps and the signal handlers all report on workDone, so it is received from
+	// until it is closed: leaving earlier would block them on the full channel forever.
 	var errors []*ServerError
-closeLoop:
+	ctxDone := s.ctx.Done()
+	sendFailed := false
+	stdinClosed := false
 	for {
 		select {
 		case errorSent, wasError := <-s.workDone:
 			if !wasError {
-				break closeLoop
+				return errors
 			}
 			errors = append(errors, &errorSent)
-			err := s.sendRuntimeMessage(
-				MessageTypeError,
-				errorSent.RunID,
-				ErrorMessage{
-					Error:       errorSent.Err.Error(),
-					StepFatal:   errorSent.StepFatal,
-					ServerFatal: errorSent.ServerFatal,
-				},
-			)
-			// If that didn't send, just send to stderr now.
-			if err != nil {
-				_, _ = fmt.Fprintf(os.Stderr, "error while sending error message: %s\n", err)
-			}
-			// If either the error report sending failed, or the error was server fatal, stop here.
-			if err != nil || errorSent.ServerFatal {
-				err = s.stdinCloser.Close()
+			if !sendFailed {
+				err := s.sendRuntimeMessage(
+					MessageTypeError,
+					errorSent.RunID,
+					ErrorMessage{
+						Error:       errorSent.Err.Error(),
+						StepFatal:   errorSent.StepFatal,
+						ServerFatal: errorSent.ServerFatal,
+					},
+				)
+				// If that didn't send, just send to stderr now.
 				if err != nil {
-					return append(errors, &ServerError{
+					_, _ = fmt.Fprintf(os.Stderr, "error while sending error message: %s\n", err)
+					sendFailed = true
+				}
+			}
+			// If either the error report sending failed, or the error was server fatal, stop reading input.
+			// Errors of steps that are still running are forwarded until they have finished.
+			if (sendFailed || errorSent.ServerFatal) && !stdinClosed {
+				stdinClosed = true
+				// Now close the pipe that it gets input from.
+				if err := s.stdinCloser.Close(); err != nil {
+					errors = append(errors, &ServerError{
 						RunID:       errorSent.RunID,
 						Err:         fmt.Errorf("error closing stdin (%w) after workDone error (%v)", err, errorSent),
 						StepFatal:   true,
 						ServerFatal: true,
 					})
-				} else {
-					break closeLoop
 				}
 			}
-		case <-s.ctx.Done():
-			// Likely got sigterm. Just close. Ideally gracefully.
-			break closeLoop
+		case <-ctxDone:
+			// Likely got sigterm. Stop waiting for the context; the session ends when the input does.
+			ctxDone = nil
 		}
 	}
-	// Now close the pipe that it gets input from.
-	return errors
 }
 
 func (s *atpServerSession) runATPReadLoop() {
@@ -253,8 +260,10 @@ func (s *atpServerSession) handleWorkStartMessage(runID string, workStartMsg Wor
 	}
 	s.runningSteps[runID] = workStartMsg.StepID
 	s.wg.Add(1) // Wait until the step is done
+	s.workersWg.Add(1)
 	go func() {
 		s.runStep(runID, workStartMsg)
+		s.workersWg.Done()
 		s.wg.Done()
 	}()
 }
@@ -280,6 +289,7 @@ func (s *atpServerSession) handleSignalMessage(runID string, signalMessage Signa
 		return
 	}
 	s.wg.Add(1) // Wait until the signal handler is done
+	s.workersWg.Add(1)
 	go func() {
 		if err := s.pluginSchema.CallSignal(
 			s.ctx,
@@ -296,6 +306,7 @@ func (s *atpServerSession) handleSignalMessage(runID string, signalMessage Signa
 				ServerFatal: false,
 			}
 		}
+		s.workersWg.Done()
 		s.wg.Done()
 	}()
 }
@@ -303,6 +314,8 @@ func (s *atpServerSession) handleSignalMessage(runID string, signalMessage Signa
 func (s *atpServerSession) run() {
 	defer func() {
 		s.runDoneChannel <- true
+		// Running steps and signal handlers still report on workDone: close it only when they are done.
+		s.workersWg.Wait()
 		close(s.workDone)
 		s.wg.Done()
 	}()
